@@ -146,8 +146,9 @@ func runRouterEngine(p *Property, c *Case, trace bool) Verdict {
 var earlyVerdict func(Verdict)
 
 type workerReq struct {
-	Case  *Case `json:"case"`
-	Trace bool  `json:"trace,omitempty"`
+	Case     *Case `json:"case"`
+	Trace    bool  `json:"trace,omitempty"`
+	Realtime bool  `json:"realtime,omitempty"`
 }
 
 // WorkerMain is the body of TestWorker: serve cases from stdin, answer on fd 3.
@@ -165,6 +166,10 @@ func WorkerMain(t *testing.T) {
 			if jerr := json.Unmarshal(line, &req); jerr != nil {
 				_ = enc.Encode(Verdict{Kind: "inconclusive", Reason: "bad request: " + jerr.Error()})
 			} else {
+				if req.Realtime {
+					_ = enc.Encode(runCaseRealtime(req.Case))
+					return // goroutines of a real-time run are not contained: one case per process
+				}
 				sent := false
 				earlyVerdict = func(v Verdict) {
 					if !sent {
@@ -268,8 +273,26 @@ var caseWatchdog = 30 * time.Second
 
 // run sends a case and waits for the verdict. alive=false means the worker is
 // gone and must be replaced.
+// confirmRealtime runs the case once on the real clock in a fresh worker.
+func confirmRealtime(c *Case) Verdict {
+	w, err := startWorker()
+	if err != nil {
+		return Verdict{Kind: "inconclusive", Reason: "cannot start worker: " + err.Error()}
+	}
+	defer w.kill()
+	old := caseWatchdog
+	v, _ := w.runReq(workerReq{Case: c, Realtime: true}, 200*time.Second)
+	_ = old
+	return v
+}
+
 func (w *workerHandle) run(c *Case, trace bool) (v Verdict, alive bool) {
-	b, _ := json.Marshal(workerReq{Case: c, Trace: trace})
+	return w.runReq(workerReq{Case: c, Trace: trace}, caseWatchdog)
+}
+
+func (w *workerHandle) runReq(req workerReq, watchdog time.Duration) (v Verdict, alive bool) {
+	c := req.Case
+	b, _ := json.Marshal(req)
 	b = append(b, '\n')
 	if _, err := w.stdin.Write(b); err != nil {
 		w.kill()
@@ -313,7 +336,7 @@ func (w *workerHandle) run(c *Case, trace bool) (v Verdict, alive bool) {
 			return v, false
 		}
 		return v, true
-	case <-time.After(caseWatchdog):
+	case <-time.After(watchdog):
 		// Hang: ask for a goroutine dump, then kill.
 		_ = w.cmd.Process.Signal(sigquit)
 		time.Sleep(300 * time.Millisecond)
